@@ -146,6 +146,13 @@ pub trait NodeMon {
     fn follows_library(&self) -> bool {
         false
     }
+    /// Properties about "the position reached by a sequence of legal moves" (move generation, status,
+    /// SAN ...) stay meaningful when the library's board has the right men on the right squares but
+    /// carries wrong castling rights from an earlier move: the playout then goes on (model = the truth
+    /// reached, library = its own board) instead of stopping at the first disagreement.
+    fn through_rights_divergence(&self) -> bool {
+        false
+    }
 }
 
 pub fn move_features(p: &RPos, m: RMove, rep: &mut Report) {
@@ -319,7 +326,12 @@ pub fn playout(start: &Start, cfg: &WalkCfg, rng: &mut Rng, mon: &mut dyn NodeMo
             out
         };
         let np = p.make(m);
-        if cfg.stop_on_divergence && !cfg.follow_library && !same_core(&read_board(&nb), &np) {
+        let lib_view = read_board(&nb);
+        let soft = mon.through_rights_divergence() && lib_view.sq[..] == np.sq[..] && lib_view.stm == np.stm;
+        if soft && lib_view.castle != np.castle {
+            rep.count("diverged_in_rights_only_continued");
+        }
+        if cfg.stop_on_divergence && !cfg.follow_library && !soft && !same_core(&lib_view, &np) {
             rep.count("diverged_stop");
             let n = Node { b: &nb, p: &np, legal: &[], ply: ply + 1, prev: Some((&b, &p, m)), after_null: false, tag: start.tag, incremental: true, diverged: true };
             mon.node(&n, rep, rng);
